@@ -11,6 +11,7 @@ import (
 	"bufio"
 	"encoding/json"
 	"fmt"
+	"io"
 	"os"
 	"regexp"
 	"runtime"
@@ -23,6 +24,7 @@ import (
 
 	"github.com/tinode/chat/server/auth"
 	"github.com/tinode/chat/server/db/memverif"
+	"github.com/tinode/chat/server/logs"
 	"github.com/tinode/chat/server/store"
 	"github.com/tinode/chat/server/store/types"
 )
@@ -635,6 +637,8 @@ var vStoreOnce sync.Once
 
 func vInitServer(t *testing.T) {
 	vStoreOnce.Do(func() {
+		// no log writes inside handlers: a goroutine blocked in write(2) would look parked ("syscall") to vQuiescent
+		logs.Init(io.Discard, "stdFlags")
 		cfg := `{"uid_key":"la6YsO+bNX/+XIkOqc5Svw==","use_adapter":"memverif","adapters":{"memverif":{}}}`
 		if err := store.Store.Open(1, json.RawMessage(cfg)); err != nil {
 			t.Fatal("store open: ", err)
